@@ -50,10 +50,33 @@ def opSemver (j : Json) : Json :=
   | none, _ => Json.mkObj [("parsed", false)]
   | _, none => Json.mkObj [("error", "minimal version does not parse")]
 
+def verStr (v : Semver.Version) : String :=
+  let segs (l : List (List Char)) := ".".intercalate (l.map String.ofList)
+  s!"{v.major}.{v.minor}.{v.patch}" ++ (if v.pre.isEmpty then "" else "-" ++ segs v.pre) ++
+    (if v.build.isEmpty then "" else "+" ++ segs v.build)
+
+/-- `parse_data` on real envelope bytes; the rkyv decoder is replaced by the table `inner_ok`
+(hex of inner bytes ↦ decodes?) supplied by the harness -/
+def opParseData (j : Json) : Json :=
+  let table : List (Bytes × Bool) := (getArr j "inner_ok").toList.map fun e =>
+    (unhex (getStr e "hex"), getBool e "ok")
+  let tryToData : Bytes → Option Bytes := fun b =>
+    match table.find? (fun (x, _) => x == b) with
+    | some (_, true) => some b
+    | _ => none
+  let emptyInner := unhex (getStr j "empty_inner")
+  match Run.parseData emptyInner tryToData (unhex (getStr j "prev")) (unhex (getStr j "cur")) with
+  | .ok _ => Json.mkObj [("result", "ok")]
+  | .error e =>
+    let code := (Run.errorCode? .preparation e.variant).getD 0
+    Json.mkObj ([("result", Json.str e.variant), ("code", toJson code)] ++
+      (match e with | .unsupportedInterpreterVersion v => [("actual", Json.str (verStr v))] | _ => []))
+
 def dispatch (j : Json) : Json :=
   match getStr j "op" with
   | "staged_run" => opStagedRun j
   | "semver" => opSemver j
+  | "parse_data" => opParseData j
   | "ping" => Json.mkObj [("pong", true)]
   | op => Json.mkObj [("error", s!"unknown op {op}")]
 
